@@ -10,7 +10,7 @@ from __future__ import annotations
 import ast
 
 from core.guards import Formula, atom, atoms_of, f_and, f_not, f_or, implies
-from core.loader import AnalysisError, Repo, norm
+from core.loader import Repo, norm
 from core.report import Result
 
 from . import search as S
